@@ -16,10 +16,11 @@ import (
 var (
 	// the last names of each pool are words as the syntax allows them beyond identifiers: a digit or an underscore
 	// first, digits only, one character, a name that differs from another one by case only
-	varNames   = []string{"customer", "title", "city", "qty", "price", "owner", "memo", "code", "total_2024", "2fa", "_", "Title", "007", "N"}
+	// (qty1 / qty10, img1 / img10: one name is the other one plus a digit)
+	varNames   = []string{"customer", "title", "city", "qty", "price", "owner", "memo", "code", "total_2024", "2fa", "_", "Title", "007", "N", "qty1", "qty10"}
 	condNames  = []string{"isVip", "hasNote", "showSum", "enabled", "urgent", "IsVip", "_ok", "3d"}
-	blockNames = []string{"header", "summary", "content", "footer"}
-	imageNames = []string{"logo", "chart"}
+	blockNames = []string{"header", "summary", "content", "footer", "b1", "b10", "b11", "sidebar", "nav", "intro", "legal", "b2"} // a family has 1-4 blocks, now and then 10-12
+	imageNames = []string{"logo", "chart", "img1", "img10"}
 )
 
 // schema of the items of one list; field names are unique over all schemas so that an inner body can
@@ -50,6 +51,8 @@ var topLists = []*schema{
 		{name: "_kids", scalar: true},
 	}},
 	{name: "L", scalar: true},
+	// items with more fields than a small map holds (c1 / c10 / c11 / c12: names that extend another name by a digit)
+	{name: "grid", fields: []string{"c1", "c2", "c3", "c4", "c5", "c6", "c7", "c8", "c9", "c10", "c11", "c12"}, bools: []string{"even"}},
 }
 
 // ---------------------------------------------------------------------------------------------
@@ -76,10 +79,13 @@ type g struct {
 	usedVars  map[string]bool
 	usedConds map[string]bool
 	trueConds map[string]bool // conditions that must be true (an If-Else over them while else is restricted)
-	trueBools map[string]bool // same for item bool fields
+	trueBools map[string]bool // same for item fields tested by a conditional of a loop body
+	condFlds  map[string]bool // item fields tested by a conditional of a loop body that carry a value of any of the documented condition types
 	usedLists map[string]bool
 	usedImgs  map[string]bool
 	n         int    // label counter
+	big       int    // big lists drawn so far (bounds the size of a case)
+	longLit   bool   // this case may hold long literals
 	seed      uint64 // see salt
 }
 
@@ -107,6 +113,9 @@ func (x *g) chance(pct int, l string) bool     { return x.uniform(100, l) < pct 
 // lit draws a literal made of 1-4 tokens.
 func (x *g) lit(nl bool) Node {
 	s := ""
+	if x.longLit && x.chance(20, "litlong") { // now and then a long stretch of text (70 .. 1500 characters, one line)
+		s = strings.Repeat(x.pick([]string{"lorem ipsum ", "长文本，", "0123456789", "a{b c}d "}, "litlw"), []int{7, 11, 26, 52, 125}[x.uniform(5, "litln")])
+	}
 	for i, n := 0, x.intn(1, 4, "litn"); i < n; i++ {
 		switch k := x.intn(0, 9, "litk"); {
 		case k < 4:
@@ -239,7 +248,16 @@ func (x *g) body(s *schema, anc []*schema, depth int, allowIf bool) []Node {
 				out = append(out, p)
 			}
 		case k < 10 && allowIf && !s.scalar && len(s.bools) > 0:
+			// the field tested: a flag of the item (a bool, or - half of the time - a value of any documented
+			// condition type), or one of its ordinary fields (which then carries a value of such a type)
 			b := x.pick(s.bools, "ifb")
+			switch k := x.uniform(10, "ifk"); {
+			case k < 4:
+				b = x.pick(s.fields, "iff")
+				x.condFlds[b] = true
+			case k < 7:
+				x.condFlds[b] = true
+			}
 			nd := Node{K: KIf, S: b, A: x.loopBranch(s, anc, depth)}
 			if len(nd.A) == 0 {
 				nd.A = []Node{x.lit(false)}
@@ -477,6 +495,64 @@ func (x *g) float() Val {
 	return Val{T: "f", S: t}
 }
 
+// condVal draws the value of an item field that a conditional of the loop body tests: a value of one of the types
+// the documents list for conditions (bool, string, int, int64, float64) - the empty / zero value of the type in
+// close to half of the draws (never when truthy is demanded), else any other value of the type: negative and huge
+// numbers, fractions below one, tiny floats, strings of one character, with braces, in any script. Strings made
+// of blanks only and the words a reader might take for "false" (false, 0, no ...) are not drawn, NaN neither: the
+// documents speak of empty and zero values, and say nothing about those.
+func (x *g) condVal(truthy bool) Val {
+	zero := !truthy && x.chance(45, "cvzero")
+	switch k := x.uniform(10, "cvk"); {
+	case k < 2:
+		return Val{T: "b", B: !zero}
+	case k < 4:
+		if zero {
+			return Val{T: "s", S: ""}
+		}
+		switch x.uniform(6, "cvs") {
+		case 0:
+			return Val{T: "s", S: x.pick(valBraceSafe, "cvsb")}
+		case 1:
+			return Val{T: "s", S: x.pick(valBraceOpen, "cvso")}
+		case 2:
+			return Val{T: "s", S: x.pick([]string{"x", "-", "是", "Ω", "a b", "y\nz", "00", "t"}, "cvs1")}
+		}
+		return Val{T: "s", S: x.pick(valWords, "cvsw")}
+	case k < 8:
+		t := "i"
+		if k >= 6 {
+			t = "l"
+		}
+		if zero {
+			return Val{T: t, S: "0"}
+		}
+		var n int64
+		switch x.uniform(4, "cvi") {
+		case 0:
+			n = x.edgeInt()
+		case 1:
+			n = -int64(x.intn(1, 5000, "cvin"))
+		default:
+			n = int64(x.intn(1, 5000, "cvip"))
+		}
+		if n == 0 {
+			n = -1
+		}
+		return Val{T: t, S: strconv.FormatInt(n, 10)}
+	}
+	if zero {
+		return Val{T: "f", S: x.pick([]string{"0", "0", "0", "-0"}, "cvfz")}
+	}
+	for try := 0; try < 6; try++ {
+		v := x.float()
+		if f := v.float(); f != 0 && f == f {
+			return v
+		}
+	}
+	return Val{T: "f", S: x.pick([]string{"0.5", "-0.5", "-1.5", "2.25", "0.001"}, "cvff")}
+}
+
 func (x *g) item(s *schema, depth int) Val {
 	if s.scalar {
 		if s.name == "nums" {
@@ -496,16 +572,29 @@ func (x *g) item(s *schema, depth int) Val {
 	}
 	m := map[string]Val{}
 	for _, f := range s.fields {
-		if x.chance(88, "fpres") {
+		switch {
+		case x.condFlds[f] && x.trueBools[f]:
+			m[f] = x.condVal(true)
+		case x.condFlds[f]:
+			if x.chance(85, "cfpres") {
+				m[f] = x.condVal(false)
+			}
+		case x.chance(88, "fpres"):
 			m[f] = x.scalar()
 		}
 	}
 	for _, b := range s.bools {
 		switch {
+		case x.trueBools[b] && x.condFlds[b]:
+			m[b] = x.condVal(true)
 		case x.trueBools[b]:
 			m[b] = Val{T: "b", B: true}
 		case x.chance(85, "bpres"):
-			m[b] = Val{T: "b", B: x.chance(50, "bval")}
+			if x.condFlds[b] {
+				m[b] = x.condVal(false)
+			} else {
+				m[b] = Val{T: "b", B: x.chance(50, "bval")}
+			}
 		}
 	}
 	nlists := 0
@@ -528,8 +617,18 @@ func (x *g) item(s *schema, depth int) Val {
 
 func (x *g) list(s *schema, depth int) []Val {
 	n := []int{0, 1, 2, 2, 3, 3, 4}[x.intn(0, 6, "listn")]
-	if depth >= 2 && n > 3 {
+	if depth >= 2 && (n > 3 || (x.big > 0 && n > 2)) {
 		n = 2
+	}
+	// now and then a list past the sizes at which an index, a count of inserted values or a count of output lines
+	// gets another digit or outgrows a small table: 10, 11, 12, 17, 33, 65 items (top-level lists; now and then
+	// 10-12 items in a nested one)
+	switch {
+	case depth == 1 && x.chance(3, "listbig"):
+		n = []int{10, 11, 12, 10, 11, 12, 17, 33, 65}[x.uniform(9, "listbign")]
+		x.big++
+	case depth == 2 && x.big == 0 && x.chance(2, "listbig2"):
+		n = 10 + x.uniform(3, "listbign2")
 	}
 	out := make([]Val, 0, n)
 	for i := 0; i < n; i++ {
@@ -793,7 +892,7 @@ func (x *g) forceElse(c *Case) {
 const hazardShare = 16
 
 func genCase(t *rapid.T) Case {
-	x := &g{t: t, usedVars: map[string]bool{}, usedConds: map[string]bool{}, trueConds: map[string]bool{}, trueBools: map[string]bool{},
+	x := &g{t: t, usedVars: map[string]bool{}, usedConds: map[string]bool{}, trueConds: map[string]bool{}, trueBools: map[string]bool{}, condFlds: map[string]bool{},
 		usedLists: map[string]bool{}, usedImgs: map[string]bool{}}
 	x.seed = rapid.Uint64().Draw(t, "seed")
 	var hz []string
@@ -817,13 +916,25 @@ func genCase(t *rapid.T) Case {
 	x.rescanAny = !rescanOpen || x.hazard == "rescan"
 
 	c := Case{Entry: x.intn(0, 1, "entry")}
+	x.longLit = x.chance(4, "longlit")
 	levels := []int{1, 1, 1, 2, 2, 3}[x.intn(0, 5, "levels")]
+	if x.chance(4, "deepchain") { // now and then a longer chain of derived templates
+		levels = 4 + x.uniform(3, "deeplv")
+	}
 	x.levels = levels
 	var blocks []string
 	if levels > 1 || x.chance(15, "soloBlocks") {
-		blocks = x.blockNamesFor(x.intn(1, len(blockNames), "nblocks"))
+		nb := x.intn(1, 4, "nblocks")
+		if x.chance(3, "manyblocks") {
+			nb = 10 + x.uniform(3, "nblocks2")
+		}
+		blocks = x.blockNamesFor(nb)
 	}
-	c.Base = x.top(1, 7, blocks, true)
+	if x.chance(2, "longtop") { // now and then a template with more than ten directives of a kind
+		c.Base = x.top(12, 24, blocks, true)
+	} else {
+		c.Base = x.top(1, 7, blocks, true)
+	}
 	if x.hazard == "nestedctx" || x.hazard == "nestedabsent" {
 		c.Base = append(c.Base, x.each(topLists[x.intn(0, 1, "hzlist")], 1, true))
 	}
